@@ -7,6 +7,7 @@ import (
 	"go/types"
 	"regexp"
 	"sort"
+	"strconv"
 	"strings"
 
 	"golang.org/x/tools/go/ssa"
@@ -29,6 +30,9 @@ type DriverFn struct {
 }
 
 type DriverFacts struct {
+	x     *Evaluator
+	comps map[ssa.Value]*listComp
+	sites []*listComp
 	W     *World
 	Fns   []*DriverFn
 	rec   map[*ssa.Function]string // recursion primitives: fn -> eval/stmt/block
@@ -38,6 +42,7 @@ type DriverFacts struct {
 }
 
 type helperCall struct {
+	lists  []*listComp // per argument: the components of a list built by the caller
 	callee *ssa.Function
 	args   []string // accessor path of each argument in the caller
 	flags  []string // {flag} rendering of bool arguments
@@ -130,6 +135,11 @@ func accessorPath(v ssa.Value, node *ssa.Parameter, depth int) string {
 	case *ssa.UnOp:
 		switch a := x.X.(type) {
 		case *ssa.IndexAddr:
+			if accessorListHook != nil {
+				if s, ok := accessorListHook(a.X, a.Index); ok {
+					return s
+				}
+			}
 			return accessorPath(a.X, node, depth+1) + "[*]"
 		case *ssa.Alloc:
 			// local copy of a struct / variable: the stored value
@@ -159,10 +169,81 @@ func accessorPath(v ssa.Value, node *ssa.Parameter, depth int) string {
 	case *ssa.Extract:
 		return accessorPath(x.Tuple, node, depth+1)
 	case *ssa.Index:
+		if accessorListHook != nil {
+			if s, ok := accessorListHook(x.X, x.Index); ok {
+				return s
+			}
+		}
 		return accessorPath(x.X, node, depth+1) + "[*]"
 	}
 	return "?"
 }
+
+// accessorListHook (set while the events of one function are collected): the element of a
+// locally built list at the index of a range loop, as a placeholder that the path
+// enumeration resolves with the iteration it is in.
+var accessorListHook func(list, index ssa.Value) (string, bool)
+
+// listComp: what a list built by the driver holds, in order: known leading elements, then
+// any number of elements of one kind (accessor paths relative to the node).
+type listComp struct {
+	prefix []string
+	elem   string
+}
+
+func (lc *listComp) at(k int) string {
+	if k < len(lc.prefix) {
+		return lc.prefix[k]
+	}
+	if lc.elem == "" {
+		return "?"
+	}
+	return lc.elem
+}
+
+func chainOfVal(v Val) string {
+	c := accessorChains(v)
+	if c == "" || strings.Contains(c, ",") {
+		return "?"
+	}
+	c = strings.TrimPrefix(c, "eval:")
+	return strings.ReplaceAll(c, "()", "")
+}
+
+// listComps: the components of list value v of fn, when it has known leading elements.
+func (df *DriverFacts) listComps(fn *ssa.Function, v ssa.Value) *listComp {
+	if df.x == nil {
+		df.x = NewEvaluator(df.W, "transpiler")
+		df.comps = map[ssa.Value]*listComp{}
+	}
+	if lc, ok := df.comps[v]; ok {
+		return lc
+	}
+	df.comps[v] = nil
+	e := df.x.TopEnv(fn)
+	l, ok := df.x.eval(v, e).(ListV)
+	if !ok {
+		return nil
+	}
+	known := l.Prefix
+	if l.IsFinite {
+		known = l.Finite
+	}
+	if len(known) == 0 {
+		return nil
+	}
+	lc := &listComp{}
+	for _, el := range known {
+		lc.prefix = append(lc.prefix, chainOfVal(el))
+	}
+	if !l.IsFinite && l.Elem != nil {
+		lc.elem = chainOfVal(l.Elem)
+	}
+	df.comps[v] = lc
+	return lc
+}
+
+var rePlaceholder = regexp.MustCompile("\x01([0-9]+)\\|([^\x01]*)\x01")
 
 // traces enumerates success paths (loops unrolled up to twice) and their events.
 func (df *DriverFacts) traces(fn *ssa.Function, iface *types.Interface) ([][]string, bool) {
@@ -171,6 +252,19 @@ func (df *DriverFacts) traces(fn *ssa.Function, iface *types.Interface) ([][]str
 		node = fn.Params[1]
 	}
 	events := map[*ssa.BasicBlock][]string{}
+	accessorListHook = func(list, index ssa.Value) (string, bool) {
+		hdr := rangeIndexOf(index)
+		if hdr == nil || hdr.Parent() != fn {
+			return "", false
+		}
+		lc := df.listComps(fn, list)
+		if lc == nil {
+			return "", false
+		}
+		df.sites = append(df.sites, lc)
+		return fmt.Sprintf("\x01%d|%d\x01", hdr.Index, len(df.sites)-1), true
+	}
+	defer func() { accessorListHook = nil }()
 	for _, b := range fn.Blocks {
 		for _, ins := range b.Instrs {
 			c, ok := ins.(*ssa.Call)
@@ -216,6 +310,12 @@ func (df *DriverFacts) traces(fn *ssa.Function, iface *types.Interface) ([][]str
 								continue
 							}
 							ci.args = append(ci.args, accessorPath(a, node, 0))
+							for len(ci.lists) < len(ci.args) {
+								ci.lists = append(ci.lists, nil)
+							}
+							if _, isSlice := a.Type().Underlying().(*types.Slice); isSlice {
+								ci.lists[len(ci.args)-1] = df.listComps(fn, a)
+							}
 							fl := ""
 							if isBool(a.Type()) {
 								switch kk := a.(type) {
@@ -305,7 +405,21 @@ func (df *DriverFacts) traces(fn *ssa.Function, iface *types.Interface) ([][]str
 		}
 		visits[b]++
 		n := len(cur)
-		cur = append(cur, events[b]...)
+		for _, ev := range events[b] {
+			if strings.Contains(ev, "\x01") {
+				ev = rePlaceholder.ReplaceAllStringFunc(ev, func(m string) string {
+					sm := rePlaceholder.FindStringSubmatch(m)
+					hi, _ := strconv.Atoi(sm[1])
+					si, _ := strconv.Atoi(sm[2])
+					k := visits[fn.Blocks[hi]] - 1
+					if k < 0 {
+						k = 0
+					}
+					return df.sites[si].at(k)
+				})
+			}
+			cur = append(cur, ev)
+		}
 		defer func() { cur = cur[:n]; visits[b]-- }()
 		if prev != nil {
 			hasPhi := false
@@ -353,6 +467,54 @@ func (df *DriverFacts) traces(fn *ssa.Function, iface *types.Interface) ([][]str
 				return
 			}
 			if bo, ok := c.(*ssa.BinOp); ok {
+				// a comparison of a range index with a constant: the iteration is known here
+				if hdr := rangeIndexOf(bo.X); hdr != nil && hdr.Parent() == fn {
+					if kc, isK := bo.Y.(*ssa.Const); isK && kc.Value != nil && kc.Value.Kind() == constant.Int {
+						k := int64(visits[hdr] - 1)
+						n := kc.Int64()
+						res, decided := false, true
+						switch bo.Op {
+						case token.GTR:
+							res = k > n
+						case token.GEQ:
+							res = k >= n
+						case token.LSS:
+							res = k < n
+						case token.LEQ:
+							res = k <= n
+						case token.EQL:
+							res = k == n
+						case token.NEQ:
+							res = k != n
+						default:
+							decided = false
+						}
+						if decided && visits[hdr] > 0 {
+							if neg {
+								res = !res
+							}
+							idx := 1
+							if res {
+								idx = 0
+							}
+							dfs(b.Succs[idx], b, f)
+							return
+						}
+					}
+				}
+				// a range loop over a list with known leading elements runs at least once for each of them
+				if bo.Op == token.LSS && !neg {
+					if x := lenArg(bo.Y); x != nil && rangeIndexOf(bo.X) == b {
+						if lc := df.listComps(fn, x); lc != nil && visits[b]-1 < len(lc.prefix) {
+							dfs(b.Succs[0], b, f)
+							return
+						}
+						if lc := df.listComps(fn, x); lc != nil && lc.elem == "" && visits[b]-1 >= len(lc.prefix) {
+							dfs(b.Succs[1], b, f)
+							return
+						}
+					}
+				}
 				// nil tests
 				if k, isK := bo.Y.(*ssa.Const); isK && k.IsNil() && (bo.Op == token.EQL || bo.Op == token.NEQ) {
 					if isN, known := knownNil(bo.X, b, prev, f, 0); known {
@@ -445,6 +607,33 @@ func (df *DriverFacts) traces(fn *ssa.Function, iface *types.Interface) ([][]str
 			for _, a := range alts {
 				for _, st := range sub {
 					n := append([]string{}, a...)
+					// a list built by the caller with known leading elements: the helper's k-th look at
+					// "the current element" of that parameter is the k-th component
+					infeasible := false
+					st = append([]string{}, st...)
+					for pi, p := range ci.callee.Params {
+						if pi >= len(ci.lists) || ci.lists[pi] == nil {
+							continue
+						}
+						lc := ci.lists[pi]
+						tok := "param:" + p.Name() + "[*]"
+						if pi == 1 {
+							tok = "self[*]" // the helper's second parameter is its "node"
+						}
+						occ := 0
+						for i, se := range st {
+							if strings.Contains(se, tok) {
+								st[i] = strings.ReplaceAll(se, tok, lc.at(occ))
+								occ++
+							}
+						}
+						if occ < len(lc.prefix) || (lc.elem == "" && occ > len(lc.prefix)) {
+							infeasible = true
+						}
+					}
+					if infeasible {
+						continue
+					}
 					for _, se := range st {
 						// rename the callee's parameters to what the caller passed
 						for pi, p := range ci.callee.Params {
